@@ -319,8 +319,8 @@ Definition dinv (d : drv) (g : option N) : Prop :=
   (d_live d = true -> forall cn, my_conn d = Some cn -> cinv (d_now d) g cn (d_hold d) (d_ka d)).
 
 Ltac dsimpl :=
-  cbn [set_fsm set_env take_close take_rxq fire_hold fire_ka quiet one
-       d_p d_role d_now d_hold d_ka d_live d_rxq d_eof d_close_tx d_close d_pend
+  cbn [set_fsm set_env set_ctrl take_close take_rxq fire_hold fire_ka quiet one
+       d_p d_role d_now d_hold d_ka d_live d_rxq d_eof d_close_tx d_close d_pend d_ctrl
        l_time l_act l_in l_outs l_res fst snd c_arm c_loop_to_fsm cur] in *.
 
 Lemma cinv_mono now now' g cn h k : now <= now' -> cinv now g cn h k -> cinv now' g cn h k.
@@ -571,16 +571,29 @@ Proof.
         apply (dinv_same d); auto. }
     destruct Hs as (d1 & ls & Heq & Hi1 & Hn1 & Hr1).
     rewrite Heq.
-    destruct (d_live d1 && d_pend d1).
-    + pose proof (flush_inv d1 (last_rx g ls) Hi1) as H. cbv zeta in H.
-      destruct (flush cur d1) as [d2 l]. cbn [fst snd] in *.
-      destruct H as (H1 & H2 & H3 & _). rewrite last_rx_app.
-      split; [exact H1|]. split; congruence.
-    + destruct ls as [|l0 ls0].
-      * unfold one, quiet. dsimpl. rewrite andb_true_r.
-        split; [|auto]. unfold last_rx in *. cbn [fold_left received_ku l_act] in *.
-        apply (dinv_same d1); auto.
-      * cbn [fst snd]. auto.
+    assert (Hidle : forall dx, d_now dx = d_now d1 -> d_hold dx = d_hold d1 -> d_ka dx = d_ka d1 ->
+                      my_conn dx = my_conn d1 -> d_live dx = d_live d1 -> d_role dx = d_role d1 ->
+                      match ls with
+                      | [] => dinv (fst (one (quiet dx AIdle Cont))) (last_rx g (snd (one (quiet dx AIdle Cont))))
+                              /\ d_now (fst (one (quiet dx AIdle Cont))) = d_now d
+                              /\ d_role (fst (one (quiet dx AIdle Cont))) = d_role d
+                      | _ :: _ => dinv dx (last_rx g ls) /\ d_now dx = d_now d /\ d_role dx = d_role d
+                      end).
+    { intros dx E1 E2 E3 E4 E5 E6. destruct ls as [|l0 ls0].
+      - unfold one, quiet. dsimpl. rewrite andb_true_r.
+        split; [|split; congruence]. unfold last_rx in *. cbn [fold_left received_ku l_act] in *.
+        apply (dinv_same d1); unfold my_conn in *; dsimpl; auto; congruence.
+      - split; [|split; congruence]. apply (dinv_same d1); auto; congruence. }
+    destruct (d_live d1 && (d_ctrl d || d_pend d)).
+    + destruct (d_pend d1).
+      * pose proof (flush_inv (set_ctrl d1 false) (last_rx g ls) Hi1) as H. cbv zeta in H.
+        destruct (flush cur (set_ctrl d1 false)) as [d2 l]. cbn [fst snd] in *.
+        destruct H as (H1 & H2 & H3 & _). rewrite last_rx_app.
+        split; [exact H1|]. dsimpl. split; congruence.
+      * specialize (Hidle (set_ctrl d1 false) eq_refl eq_refl eq_refl eq_refl eq_refl eq_refl).
+        destruct ls; exact Hidle.
+    + specialize (Hidle d1 eq_refl eq_refl eq_refl eq_refl eq_refl eq_refl).
+      destruct ls; exact Hidle.
 Qed.
 
 (* the other connection's task can only take this connection's slot away *)
@@ -773,10 +786,11 @@ Proof.
         rewrite feed_no_timer_down; [reflexivity | discriminate].
       - apply rx_loop_no_timer_down. }
     destruct sp as [d1 ls]. cbn [snd] in Hsp.
-    destruct (d_live d1 && d_pend d1).
+    destruct (d_live d1 && (d_ctrl d || d_pend d)); [destruct (d_pend d1)|].
     + unfold flush. destruct (arb_process _ _ _) as [p' outs].
       destruct (apply_outputs _ _ _ _ _) as [[h' k'] res]. cbn [snd].
       rewrite existsb_app, Hsp. cbn. intro H; discriminate H.
+    + destruct ls; cbn [snd]; [cbn; intro H; discriminate H|]. rewrite Hsp. intro H; discriminate H.
     + destruct ls; cbn [snd]; [cbn; intro H; discriminate H|]. rewrite Hsp. intro H; discriminate H.
 Qed.
 
